@@ -50,6 +50,7 @@ type FS struct {
 	Journal  []JEntry
 	OnMutate func(e JEntry)
 	tmpSeq   int
+	goWrites int // Go-level data writes below task temp directories so far (DiskFullAt)
 }
 
 const NameMax = 255
@@ -554,7 +555,13 @@ func (f *FS) GoWriteFile(path string, data []byte) error {
 	}
 	f.s.Pre("writefile-write", 0, path)
 	if len(data) > 0 {
-		f.WriteAt(n, abs, 0, data)
+		k, full := f.goWriteFault(abs, len(data))
+		if k > 0 {
+			f.WriteAt(n, abs, 0, data[:k])
+		}
+		if full {
+			return perr("write", path, syscall.ENOSPC)
+		}
 	}
 	return nil
 }
@@ -574,6 +581,20 @@ func (f *FS) GoReadDir(path string) ([]iofs.FileInfo, error) {
 }
 
 // --- File handles ---------------------------------------------------------------
+
+// goWriteFault decides whether a Go-level data write to abs is the one that
+// hits the full disk; it returns how many bytes are stored.
+func (f *FS) goWriteFault(abs string, n int) (int, bool) {
+	if f.s.Cfg.DiskFullAt <= 0 || n == 0 || !strings.Contains(abs, "/_scipipe_tmp") {
+		return n, false
+	}
+	f.goWrites++
+	if f.goWrites != f.s.Cfg.DiskFullAt {
+		return n, false
+	}
+	f.s.Fault("disk-full")
+	return n / 2, true
+}
 
 type File struct {
 	fs     *FS
@@ -651,11 +672,17 @@ func (fl *File) Write(b []byte) (int, error) {
 		return 0, perr("write", fl.name, syscall.EBADF)
 	}
 	if len(b) > 0 {
-		if fl.app {
-			fl.fs.AppendData(fl.n, fl.abs, b)
-		} else {
-			fl.fs.WriteAt(fl.n, fl.abs, fl.pos, b)
-			fl.pos += len(b)
+		k, full := fl.fs.goWriteFault(fl.abs, len(b))
+		if k > 0 {
+			if fl.app {
+				fl.fs.AppendData(fl.n, fl.abs, b[:k])
+			} else {
+				fl.fs.WriteAt(fl.n, fl.abs, fl.pos, b[:k])
+				fl.pos += k
+			}
+		}
+		if full {
+			return k, perr("write", fl.name, syscall.ENOSPC)
 		}
 	}
 	return len(b), nil
